@@ -49,6 +49,14 @@ def apply_op(op, dt, s, r):
             out[i] = (a * c) & 0xffffffff
             out[i + 1] = (a * d + b) & 0xffffffff
         return out
+    if op == 4:
+        out = list(r)
+        for i in range(0, len(r) - 2, 3):
+            a, b, c, x, y, z = r[i], r[i + 1], r[i + 2], s[i], s[i + 1], s[i + 2]
+            out[i] = (a * x) & 0xffffffff
+            out[i + 1] = (a * y + b * z) & 0xffffffff
+            out[i + 2] = (c * z) & 0xffffffff
+        return out
     out = []
     for x, y in zip(s, r):
         sv, rv = dec(dt, x), dec(dt, y)
@@ -132,9 +140,9 @@ def gen_cases(ctx):
     Ps = [1, 2, 3, 4, 5, 7, 8, 9, 10, 12, 15, 16, 17, 20, 24, 31, 32, 33] if ctx.quick else list(range(1, 40)) + [63, 64, 65, 100, 128, 129]
     for P in Ps:
         for rep in range(2 if ctx.quick else 5):
-            op = rng.choice([0, 1, 2, 3])
-            dt = 1 if op == 3 else rng.choice(range(9))
-            count = rng.choice([0, 1, 2, 3, 5]) if op != 3 else rng.choice([2, 4])
+            op = rng.choice([0, 1, 2, 3, 4])
+            dt = 1 if op >= 3 else rng.choice(range(9))
+            count = rng.choice([0, 1, 2, 3, 5]) if op < 3 else (rng.choice([2, 4]) if op == 3 else rng.choice([3, 6]))
             vals = [gen_value(rng, dt) for _ in range(P * count)]
             dseed = rng.randrange(1 << 16)
             # the same data: allreduce, and reduce to several targets, under different schedules
@@ -156,6 +164,17 @@ def gen_cases(ctx):
                 dseed = rng.randrange(1 << 16)
                 for t in (-1, 0, P - 1):
                     cases.append((P, rng.randrange(1 << 30), rng.randrange(8), op, dt, count, t, dseed, tuple(vals)))
+    # LONG buffers with a custom operator whose operand spans three items: the operator must see the buffer as a whole
+    # (or at least in pieces that respect its operands); 65538 unsigned = 262152 bytes, just above 256 KiB, and a
+    # second length in the megabyte range in the thorough tier
+    for P in ((2, 3, 9) if ctx.quick else (2, 3, 5, 8, 9, 17)):
+        for count in ((65538,) if ctx.quick else (65538, 3 * 100001)):
+            if P * count > 1600000:
+                continue
+            vals = [rng.getrandbits(32) | 1 for _ in range(P * count)]
+            dseed = rng.randrange(1 << 16)
+            for t in (-1, P - 1):
+                cases.append((P, rng.randrange(1 << 30), rng.randrange(8), 4, 1, count, t, dseed, tuple(vals)))
     return cases
 
 
@@ -202,7 +221,7 @@ def run(ctx):
         ctx.tie_broken("kernel table", "cannot read the generated tables: %s" % e)
     v = ctx.variant(mpi="sim", san=True, cflags_extra=("-fno-sanitize=nonnull-attribute", "-fwrapv", "-fno-sanitize=signed-integer-overflow"))
     exe = ctx.cc([os.path.join(vlib.TOOLS, "harness", "c03_harness.c"), os.path.join(vlib.TOOLS, "simmpi", "simmpi.c")],
-                 os.path.join(ctx.scratch, "c03_harness"), v)
+                 os.path.join(ctx.scratch, "c03_harness"), v, extra=("-DTRACE_MAXPAYLOAD=8388608",))   # long buffers are co-simulated too
     cases = gen_cases(ctx)
     if ctx.replay:
         rp = json.load(open(ctx.replay)).get("replay", {})
@@ -342,7 +361,7 @@ def run(ctx):
         ctx.tie_broken("c03 model build", str(e)[-1500:])
     ctx.cov["disagreements_checked"] = len(mlines)
     ctx.cov["rule"] = ("runs of sc_reduce/sc_allreduce(+_custom) on the simulated MPI: P on both sides of 8/9, 16/17, 32/33, all 9 datatypes, MIN/MAX/SUM and an "
-                       "associative non-commutative custom operator, counts 0..5, values incl. +-0, 1e16/1/-1e16, integer extremes; each data set is reduced to "
+                       "associative non-commutative custom operators on pairs and on triples of items, counts 0..6 and 65538 (262152 bytes: long buffers), values incl. +-0, 1e16/1/-1e16, integer extremes; each data set is reduced to "
                        "several targets and all-reduced under different seeds and adversaries and the bits compared; non-trivial = P > 1 and count > 0")
     ctx.notes["distribution"] = dist
     for c in cases[:: max(1, len(cases) // 4)][:4]:
